@@ -73,9 +73,35 @@ def run(ctx):
     validator_features(ctx)
 
 
+def forwarding_wrappers(ctx, rule="R01.1"):
+    """the `Encodable` wrappers forward each query/emission to the method of the same name of whichever encoder is wrapped
+    (builder, component type, instance type): every arm of every wrapper calls its namesake — a counter read from another
+    index space (`type_count` for `core_type_count`) numbers the next item wrongly in that one scope kind only."""
+    import tables
+    db, prov = ctx.db, ctx.prov
+    names = {"import_type": "import"}
+    n = 0
+    for f in sorted(db.fns.values(), key=lambda x: x.id):
+        if not f.id.startswith(ENC + "Encodable::") or "{closure" in f.id:
+            continue
+        m = f.id.rsplit("::", 1)[-1]
+        rows = [(v, c, sp) for a, v, c, sp in tables.enum_to_callee(db, prov, f, "wasm_encoder::") if a.endswith("encoding::Encodable")]
+        if len(rows) < 2:
+            continue
+        ctx.touch(f)
+        for v, c, sp in rows:
+            n += 1
+            want = names.get(m, m)
+            ctx.ob(rule, "forward|Encodable::%s|%s" % (m, v), c == want, "Encodable::%s forwards to %s for %s" % (m, c, v) if c == want else
+                   "Encodable::%s forwards to `%s` when wrapping a %s (the other arms call `%s`): in that kind of scope the wrong index space / emitter is used" % (m, c, v, want),
+                   site="%s in %s" % (sp, f.id))
+    ctx.ob(rule, "forward-rows", n >= 18, "Encodable forwarding arms checked: %d" % n, nontrivial=False)
+
+
 def index_capture(ctx):
     """R01.1: every read of an index-space counter is immediately followed (on every path) by the emission it numbers."""
     db, prov = ctx.db, ctx.prov
+    forwarding_wrappers(ctx)
     prim = emit_primitives(db)
     ctx.ob("R01.1", "anchor", len(prim) >= 5, "emission primitives: %s" % sorted(x.split("::")[-1] for x in prim), nontrivial=False)
     emit = emitting_fns(db, prim)
